@@ -22,7 +22,7 @@ RULE = ("in-memory LASFiles with 0..6 generated items in ~Version (after VERS/WR
         "version {1.2, 2.0} x mnemonic_case {preserve, upper, lower}. distinct = distinct (section sizes, widest item, field "
         "classes, version, case); non-trivial = >= 2 generated items in some section Added later: second-generation round trips (read with each mnemonic_case, written again), fields of 120..400 characters, empty and blank-only lines and Unicode line separators inside ~Other, trailing empty lines, VERS at position 1, 2 or last of ~Version, legend words (MNEM/UNIT) and blank runs in values.")
 ASSUMPTIONS = [
-    "conformance clause of the statement is enforced by the generator (rv/gen/fields.py); NaN/None values, mixed-case spellings of STRT/STOP/STEP/NULL and digit-underscore values (C08) are not generated",
+    "conformance clause of the statement is enforced by the generator (rv/gen/fields.py); NaN/None values and digit-underscore values (C08) are not generated",
     "allowed differences: STRT/STOP/STEP values, STRT/STOP/STEP and index-curve units, empty value with a unit -> 0",
 ]
 REQUIRED = ["write_read_pairs", "items_compared", "cases_widest_item_has_empty_value", "cases_blank_mnemonic", "cases_duplicate_mnemonic",
@@ -47,7 +47,7 @@ def gen_item(rng, section, blank_ok=True):
     m = fields.mnemonic(rng)
     if rng.random() < 0.08:
         m = rng.choice(["STRT", "NULL", "COMP", "VERS", "A", "A"]) if section in ("Parameter", "Curves") else \
-            rng.choice(["A", "A", "COMP", "UWI", "API", "NULL", "null", "strt", "step"]) if section == "Well" else rng.choice(["A", "A", "COMP", "UWI", "API"])
+            rng.choice(["A", "A", "COMP", "UWI", "API", "NULL", "null", "strt", "step", "Null", "Stop", "sTEP", "Strt"]) if section == "Well" else rng.choice(["A", "A", "COMP", "UWI", "API"])
     u = fields.unit(rng)
     v = gen_value(rng)
     d = fields.text(rng, colons=False)
